@@ -55,7 +55,7 @@
 #define VP_NEWTBL (VP_NAMES * VP_RECS + 1)
 
 /* ---- opaque objects ---------------------------------------------------- */
-struct ldb_memtable_s { int refs; int dirty; int over; int flushed; int flushed_ok; int dead; };
+struct ldb_memtable_s { int refs; int dirty; int over; int flushed; int flushed_ok; int dead; size_t usage; };
 struct ldb_wfile_s { int kind; uint64_t num; int append; int synced; int closed; int destroyed; };
 struct ldb_rfile_s { int open; uint64_t num; };
 struct ldb_filelock_s { int held; int locks; int unlocks; };
@@ -1051,6 +1051,10 @@ ldb_batch_insert_into(const ldb_batch_t *b, ldb_memtable_t *mt) {
   rs_inserted[k] = 1;
   rs_last_ins = k;
   mt->dirty = 1;
+  /* the memtable grows only here; whether it is now over budget is decided now */
+  mt->usage = vp_size();
+  if (mt->usage > the_db.options.write_buffer_size)
+    mt->over = 1;
   rc = LDB_OK;
   if (vp_bool())
     rc = LDB_CORRUPTION;   /* malformed batch body */
@@ -1073,7 +1077,7 @@ ldb_memtable_create(const ldb_comparator_t *cmp) {
   VP_ASSERT(cmp == &the_db.internal_comparator, "memtable ordered by the internal comparator");
   VP_ASSERT(mems_created == 0 || the_mem.dead, "vp-model: one memtable alive at a time");
   mems_created++;
-  m->refs = 0; m->dirty = 0; m->over = 0; m->flushed = 0; m->flushed_ok = 0; m->dead = 0;
+  m->refs = 0; m->dirty = 0; m->over = 0; m->flushed = 0; m->flushed_ok = 0; m->dead = 0; m->usage = 0;
   return m;
 }
 
@@ -1095,10 +1099,7 @@ ldb_memtable_unref(ldb_memtable_t *m) {
 
 size_t
 ldb_memtable_usage(const ldb_memtable_t *m) {
-  size_t u = vp_size();
-  if (u > the_db.options.write_buffer_size)
-    ((ldb_memtable_t *)m)->over = 1;
-  return u;
+  return m->usage;
 }
 
 ldb_iter_t *
